@@ -72,6 +72,31 @@ def main():
             out[f"g{i}"] = h(export.canonical_dump(scfg))
         except Exception as e:  # noqa: BLE001
             out[f"g{i}"] = "abort:" + type(e).__name__
+        # the same input again in the same process (fresh objects, after everything that ran before):
+        # "always yields the identical result" also means not depending on what the process did earlier
+        if i % 3 == 0:
+            try:
+                again = export.mk_scfg(succ, names)
+                again.restructure()
+                d2 = h(export.canonical_dump(again))
+            except Exception as e:  # noqa: BLE001
+                d2 = "abort:" + type(e).__name__
+            if d2 != out[f"g{i}"]:
+                out[f"g{i}"] = f"differs-within-one-process:{out[f'g{i}']}/{d2}"
+    for i, succ in enumerate(inputs[:60]):
+        L = "abcdefghijklmnopqrstuvwxyz"
+        names = [[f"blk{j}" for j in range(len(succ))],
+                 [f"{L[j % 26]}{j // 26}_{j % 3}" for j in range(len(succ))],
+                 [f"n{L[(j * 7) % 26]}{j}_1" for j in range(len(succ))],
+                 [f"{L[(j * 5) % 26] * 2}{(j * 7) % 4}x{j}" for j in range(len(succ))]][i % 4]
+        try:
+            late = export.mk_scfg(succ, names)
+            late.restructure()
+            d3 = h(export.canonical_dump(late))
+        except Exception as e:  # noqa: BLE001
+            d3 = "abort:" + type(e).__name__
+        if d3 != out[f"g{i}"] and not out[f"g{i}"].startswith("differs"):
+            out[f"g{i}"] = f"differs-at-the-end-of-the-process:{out[f'g{i}']}/{d3}"
     for i, src in enumerate(PROGRAMS):
         try:
             scfg = AST2SCFG(src)
